@@ -182,6 +182,17 @@ def faults_mtl(rng, spec, model, roles, call):
             new = list(shared)
             new.insert(pos, rng.choice(nonrg))
             add("param_no_requires_grad", "shared", pos, shared=new)
+    # an intermediate on which retain_grad() was called and which was then detached in place: it neither
+    # requires grad nor is it a leaf requiring grad (torch keeps its retains_grad flag set)
+    if all_nonleaf:
+        victim = rng.choice(all_nonleaf)
+        new = list(shared)
+        new.insert(rng.randint(0, len(new)), victim)
+        F.append({"kind": "param_detached_in_place_after_retain_grad", "group": "shared", "pos": 0, "call": {**copy.deepcopy(base), "shared": new}, "detach_in_place": victim})
+        if t >= 2:
+            newt = [list(tp) for tp in tasks]
+            newt[t - 1].append(victim)
+            F.append({"kind": "param_detached_in_place_after_retain_grad", "group": "tasks", "pos": [t - 1, len(newt[t - 1]) - 1], "call": {**copy.deepcopy(base), "tasks": newt}, "detach_in_place": victim})
     for ti in range(t):
         for pos in range(len(tasks[ti]) + 1):
             if all_nonleaf:
@@ -260,6 +271,15 @@ def execute(scn):
                     continue
                 world.t[f["freeze"]].requires_grad_(False)
                 stats["reach.parameter_frozen_between_calls"] = stats.get("reach.parameter_frozen_between_calls", 0) + 1
+            if f.get("detach_in_place"):
+                v = world.t.get(f["detach_in_place"])
+                if v is None or v.is_leaf or not v.requires_grad:
+                    continue
+                try:
+                    v.retain_grad()
+                    v.detach_()
+                except RuntimeError:
+                    continue  # views cannot be detached in place: this fault does not exist for them
             before = world.grads()
             out, _ = run_call(world, f["call"])
             after = world.grads()
@@ -275,7 +295,7 @@ def execute(scn):
             window = None
             if pos is not None:
                 window = pos[0] > 0
-            elif f["call"]["api"] == "mtl" and f["kind"] in ("param_nonleaf", "param_no_requires_grad", "param_frozen_after_valid_call"):
+            elif f["call"]["api"] == "mtl" and f["kind"] in ("param_nonleaf", "param_no_requires_grad", "param_frozen_after_valid_call", "param_detached_in_place_after_retain_grad"):
                 tk = f["call"]["tasks"]
                 if tk is None:
                     window = True
